@@ -231,8 +231,16 @@ class Schema:
 
     def add_schema(self, schema, root_path: DataPath):
         for rule in schema.rules:
-            rule.path = root_path / rule.path
-            self.rules.append(rule)
+            # add a re-rooted copy; `schema` keeps its own rules (and paths), so it can
+            # be added again, here or elsewhere:
+            self.rules.append(
+                Rule(
+                    path=root_path / rule.path,
+                    condition=rule.condition,
+                    cast=rule.cast,
+                    doc=rule.doc,
+                )
+            )
 
         self.rules = sorted(self.rules, key=lambda i: len(i.path))
 
